@@ -117,6 +117,7 @@ def m(v):
     match v:
         case [head, *tail]: return head, tail
         case {'k': value, **others}: return value, others
+        case {"#": 1, '# tail': 2, **hashed}: return hashed
         case {'k': 1,  # the tail of it
               **tail}: return tail
         case {**
